@@ -223,6 +223,11 @@ def x12n_document(param, src_file, fd_997, fd_html,
                     err_node_list.append(err_node)
                 except pyx12.errors.IterOutOfBounds:
                     break
+            if seg.get_seg_id() == 'SE' and errh.cur_st_node is not None \
+                    and errh.cur_st_node not in err_node_list:
+                # A set without body errors is never revisited by the iterator:
+                # the errors of its SE would not be shown
+                err_node_list.append(errh.cur_st_node)
             html.gen_seg(seg, src, err_node_list)
 
         if fd_xmldoc:
